@@ -310,12 +310,13 @@ def _run_aio(rec, server, reads, datagram):
                 h.data_received(r)
             for _ in range(4):
                 await asyncio.sleep(0)
+        alive = h.handler_task is not None and not h.handler_task.done()
+        if not alive:     # the handle() coroutine must survive every request (its ladder catches everything)
+            rec.escaped.append("handler-task-ended")
         h.connection_lost(None)
         await asyncio.sleep(0)
         if h.handler_task is not None and h.handler_task.done() and not h.handler_task.cancelled():
-            e = h.handler_task.exception()
-            if e is not None:
-                rec.escaped.append(type(e).__name__)
+            h.handler_task.exception()      # teardown path (cancellation arm) is not part of the request path: retrieve, ignore
     asyncio.run(main())
 
 
